@@ -209,6 +209,32 @@ Definition run_stress (a : sx) : sx :=
   | _ => sx_err "stress"
   end.
 
+(* ---------- Connection layer over time ---------- *)
+
+(* c11.conn (server_seed ((drop ((gap payload) ...) (marked ...)) ...))
+   drop = 'close (server closes the socket) | 'silence (server goes silent for
+   more than reconnectTimeout) | 'end (last session).
+   -> (sessions (payload ... received on the ONE Responses() channel)
+       ((marked packets the server decoded) per session)) *)
+Definition arrivals_of (drop : string) (pk : list sx) : list arrival :=
+  flat_map (fun x => match x with
+                     | SL [SN g; SBytes p] => [APacket g p]
+                     | _ => [] end) pk
+  ++ (if String.eqb drop "close" then [AClosed 100%N]
+      else if String.eqb drop "silence" then [AClosed 11000%N] else []).
+
+Definition run_conn (a : sx) : sx :=
+  match a with
+  | SL [SBytes _; SL sess] =>
+      let parsed := map (fun s => match s with
+                                  | SL [SA drop; SL pk; SL marked] => (arrivals_of drop pk, marked)
+                                  | _ => ([], []) end) sess in
+      SL [sx_nat (List.length parsed);
+          SL (map SBytes (app_received (conn_run false false 0 (map fst parsed))));
+          SL (map (fun s => SL (snd s)) parsed)]
+  | _ => sx_err "conn"
+  end.
+
 Definition run (name : string) (a : sx) : sx :=
   let is x := String.eqb name x in
   if is "c11.marshal" then run_marshal a
@@ -218,4 +244,5 @@ Definition run (name : string) (a : sx) : sx :=
   else if is "c11.csend" then run_csend a
   else if is "c11.conc" then run_conc a
   else if is "c11.stress" then run_stress a
+  else if is "c11.conn" then run_conn a
   else sx_err "unknown case kind".
